@@ -24,7 +24,16 @@ func r03_11(c *Ctx, r *Report) {
 	E := func(y float64) float64 { return 3 + 0.004*(y-1700)*(y-1700) }
 	var bad []string
 	n := 0
-	for _, y := range []float64{y0, y0 + 0.5, y0 + 1, y0 + 37, y0 + 99.5, y0 + 100, y0 + 100.25, y0 + 101, y0 + 150, y0 + 1000, 9999} {
+	years := []float64{y0, y0 + 0.5, y0 + 1, y0 + 37, y0 + 99.5, y0 + 100, y0 + 100.25, y0 + 101, y0 + 150, y0 + 1000, 9999}
+	if c.Tier == "thorough" {
+		for y := y0 + 0.125; y < y0+300; y += 0.625 {
+			years = append(years, y)
+		}
+		for y := y0 + 300; y < 9999; y += 97 {
+			years = append(years, y)
+		}
+	}
+	for _, y := range years {
 		var leaf leafX
 		leaf = func(fr *evalFrame, v ssa.Value) (interface{}, bool) {
 			if p, ok := v.(*ssa.Parameter); ok && fr.parent == nil && p == fn.Params[0] {
@@ -58,6 +67,6 @@ func r03_11(c *Ctx, r *Report) {
 			bad = append(bad, fmt.Sprintf("year %v (table ends %v): %v, stated %v", y, y0, got, want))
 		}
 	}
-	r.check(len(bad) == 0 && n == 11, rule, "ShouXingUtil.dtCalc joins the table over a century and then follows the parabola", c.fnPos(fn), fmt.Sprintf("%d years from the table's end %v (value %v) to 9999; deviations: %v", n, y0, t0, headList(bad, 3)))
+	r.check(len(bad) == 0 && n == len(years), rule, "ShouXingUtil.dtCalc joins the table over a century and then follows the parabola", c.fnPos(fn), fmt.Sprintf("%d years from the table's end %v (value %v) to 9999; deviations: %v", n, y0, t0, headList(bad, 3)))
 	r.floor(rule, 1)
 }
